@@ -1,10 +1,19 @@
 //! Verification harness for stepfunc/dnp3 (property-based testing / fuzzing).
 //! Compiled INTO the dnp3 crate by hook H1 (`cfg(stepfunc_dnp3_verif)`, set only by /verif/shadow/build.rs),
 //! in a non-test build, so the real link/transport layers are the ones exercised.
-#![allow(missing_docs, dead_code, unreachable_pub, unused_imports, clippy::all, missing_copy_implementations, missing_debug_implementations)]
+#![allow(
+    missing_docs,
+    dead_code,
+    unreachable_pub,
+    unused_imports,
+    clippy::all,
+    missing_copy_implementations,
+    missing_debug_implementations
+)]
 
 pub mod cli;
 pub mod engine;
+pub mod gen;
 pub mod io;
 pub mod json;
 pub mod props;
